@@ -331,6 +331,12 @@ pub fn render(r: &mut Rng, c: &Call) -> Option<String> {
     }
 }
 
+/// The plain spelling (no padding, no respelling); used for the seeds of the coverage-guided search.
+pub fn render_plain(r: &mut Rng, c: &Call) -> Option<String> {
+    PAD.with(|p| p.set(0));
+    render0(r, c)
+}
+
 fn respell(r: &mut Rng, s: String) -> String {
     let cs: Vec<char> = s.chars().collect();
     let intro = if cs.len() >= 3 && cs[0] == '\x1b' && cs[1] == '[' {
